@@ -8,6 +8,13 @@ drain_writers, on_timeout and at the end of handle_client, ReplayHandler.handle_
 (handle_client) is only cancelled by event-loop shutdown, which is outside the statement's quantifier.
 
 "A hook fires" = `handle_hook(hook)` is called with it (the coroutine reaches that await).
+
+`await self.server_event(...)` is recorded as an event of the trace but is NOT a cancellation point: scenario
+server_event.atomic_and_registers_tasks proves that the critical section under `_server_event_lock` contains no suspension
+point for any command, so the lock is never held across a suspension, is therefore never contended, and (trusted
+asyncio.Lock contract) acquiring it does not suspend; asyncio delivers CancelledError only at an await that actually
+suspended. (With a non-default *eager task factory* tasks created inside server_event run re-entrantly and this argument does
+not apply; that configuration is outside the contract.)
 """
 from pyvc.api import *
 from props.prelude import *
@@ -26,6 +33,9 @@ ASSUMPTIONS = [
     "Connection.transport_protocol is 'tcp' or 'udp' (its declared Literal type)",
     "the client handler task (handle_client) itself is not cancelled (only event-loop shutdown does that) and handle_hook does not raise (addon errors are caught by the addon manager)",
     "logging (ConnectionHandler.log), human.format_address, time.time are opaque",
+    "server_event never suspends (proved: no suspension point inside its lock; trusted: an uncontended asyncio.Lock is acquired without suspending; default, non-eager task factory), so it is not a cancellation point",
+    "handle_connection's effect inside open_connection is its own proved postcondition (writer closed, transports entry removed, not readable; CancelledError re-raised)",
+    "T2: 'resources' = unclosed sockets, running tasks, transports entries with an open socket or a running handler; stale transports placeholders of failed/cancelled connection attempts (no socket, finished task) are not counted",
     "asyncio.wait(tasks) returns only when every task in the list is done; Task.cancel() requests cancellation (delivered at the task's current/next await)",
 ]
 
